@@ -274,6 +274,11 @@ EventBad(t, l) ==
       k == IF ev.op.k = "new" /\ ~ev.op.strict THEN "new_nonstrict" ELSE ev.op.k
       \* discover(converter=...) appends a converter whose content is C19's business: here only the frame is judged
       ok == InputsOK(pre, ev.op) /\ ev.op.k # "discover" /\ ReadJudged(t, ev.op)
+      \* the answers logged right after an incremental step are judged against the converter the step SHOULD have produced
+      \* (identical to the logged one whenever the step conforms): a converter built through the public API answers as its
+      \* history demands, whatever the step did to the records
+      exp == IF ok /\ ev.op.k = "add" /\ r.tgt # 0 /\ r.tgt <= Len(post) /\ Len(r.convs) = Len(post)
+             THEN [post EXCEPT ![r.tgt] = r.convs[r.tgt]] ELSE post
   IN
   (IF ok /\ ~OutMatch(r.out, ev.out) THEN {<<"out", k>>} ELSE {}) \cup
   (IF ok /\ ~DupsMatch(r.out, ev.out) THEN {<<"dups", k>>} ELSE {}) \cup
@@ -288,9 +293,9 @@ EventBad(t, l) ==
   UNION {{<<"frame", k, x>> : x \in ConvDiff(pre[i], post[i])} :
             i \in {i \in 1..Len(pre) : i <= Len(post) /\ i # r.tgt}} \cup
   (IF \E i \in 1..Len(ev.convs) : "same" \notin DOMAIN ev.convs[i] /\ ~ViewsOK(ev.convs[i]) THEN {<<"views", k>>} ELSE {}) \cup
-  UNION {RowBad(post[ev.pt[q].i], ev.pt[q]) : q \in 1..Len(ev.pt)} \cup
-  UNION {PRowBad(post[ev.ppt[q].i], ev.ppt[q]) : q \in 1..Len(ev.ppt)} \cup
-  UNION {MonBad(ev, i, post[i]) : i \in {ev.pt[q].i : q \in 1..Len(ev.pt)} \cup {ev.ppt[q].i : q \in 1..Len(ev.ppt)}} \cup
+  UNION {RowBad(exp[ev.pt[q].i], ev.pt[q]) : q \in 1..Len(ev.pt)} \cup
+  UNION {PRowBad(exp[ev.ppt[q].i], ev.ppt[q]) : q \in 1..Len(ev.ppt)} \cup
+  UNION {MonBad(ev, i, exp[i]) : i \in {ev.pt[q].i : q \in 1..Len(ev.pt)} \cup {ev.ppt[q].i : q \in 1..Len(ev.ppt)}} \cup
   (IF InputsStrict(pre, ev.op) THEN OpMonBad(pre, post, ev.op, ev.out) ELSE {}) \cup
   ReadMonBad(t, pre, post, ev.op, ev.out) \cup
   UpgradeBad(ev.op, ev.out)
